@@ -77,9 +77,17 @@ pub fn push_obs(e: E) -> S {
 
 pub fn pat_src(p: &Pat) -> String {
     match p {
-        Pat::Lit(v) => v.to_src(),
-        Pat::Range(a, b, inc) => format!("{}{}{}", a.to_src(), if *inc { "..=" } else { ".." }, b.to_src()),
+        Pat::Lit(v) => plit(v),
+        Pat::Range(a, b, inc) => format!("{}{}{}", plit(a), if *inc { "..=" } else { ".." }, plit(b)),
         Pat::Default => "_".into(),
+    }
+}
+
+/// literal syntax accepted in pattern position (bytes must be written b'c')
+fn plit(v: &V) -> String {
+    match v {
+        V::Byte(b) if b.is_ascii_graphic() && *b != b'\'' => format!("b'{}'", *b as char),
+        _ => v.to_src(),
     }
 }
 
